@@ -3,9 +3,11 @@ package main
 import (
 	"bytes"
 	"fmt"
+	"io"
 	"math/rand"
 	"strings"
 
+	"github.com/dsnet/compress/xflate"
 	"github.com/dsnet/compress/xflate/verifharness/vhlib"
 )
 
@@ -86,9 +88,35 @@ func runC13(r *vhlib.Run) {
 	if !r.Quick() {
 		nsched = 60
 	}
-	for _, wc := range wcodecs() {
+	// XFLATE with chunks of 100000 bytes: the compressor below it hands 64 KiB blocks to the
+	// sink from inside Write, so that a sink failure can surface in Write and not only in a Flush
+	bigLevel := 6
+	wcs := append(wcodecs(), wcodec{Name: "xflate", Big: true,
+		New: func(s io.Writer) wrt {
+			w, _ := xflate.NewWriter(s, &xflate.WriterConfig{Level: bigLevel, ChunkSize: 100000, IndexSize: 3})
+			return xfW{w}
+		},
+		Decode: func(sink []byte) ([]byte, bool) {
+			out, cls, used := stdInflateObs(sink)
+			return out, cls == "nil" && used == len(sink)
+		}})
+	for _, wc := range wcs {
 		for si := 0; si < nsched; si++ {
 			ops := c13Schedule(rng, wc, si%3 == 2)
+			if wc.Big {
+				if si >= 1 && r.Quick() || si >= 8 {
+					break
+				}
+				ops = nil
+				bigLevel = []int{1, 0, 6}[si%3]
+				for k := 1 + rng.Intn(3); k > 0; k-- {
+					ops = append(ops, wOp{Kind: 'w', Data: vhlib.RandBytes(rng, 60000+rng.Intn(160000))})
+					if rng.Intn(3) == 0 {
+						ops = append(ops, wOp{Kind: 'f', Mode: rng.Intn(3)})
+					}
+				}
+				ops = append(ops, wOp{Kind: 'c'})
+			}
 			// fault-free run
 			free := &faultSink{At: -1}
 			ft := runWriter(wc, free, ops)
@@ -133,14 +161,31 @@ func runC13(r *vhlib.Run) {
 						}
 					}
 				}
-				for k := 0; k < 200; k++ {
+				// every boundary between two sink calls of the fault-free run
+				cum := 0
+				for _, sz := range free.Sizes {
+					if !wc.Big {
+						break
+					}
+					for d := -1; d <= 1; d++ {
+						if cum+d >= 0 && cum+d <= len(good) {
+							positions = append(positions, cum+d)
+						}
+					}
+					cum += sz
+				}
+				nrand := 200
+				if wc.Big {
+					nrand = 20
+				}
+				for k := 0; k < nrand; k++ {
 					positions = append(positions, rng.Intn(len(good)+1))
 				}
 			}
 			for _, at := range positions {
 				for kind := 0; kind < 2; kind++ {
 					for _, once := range []bool{false, true} {
-						if r.Quick() && (at+kind)%2 == 1 && once {
+						if r.Quick() && (at+kind)%2 == 1 && once && !wc.Big {
 							continue
 						}
 						sink := &faultSink{At: at, Kind: kind, Once: once}
@@ -255,7 +300,11 @@ func runC13(r *vhlib.Run) {
 					}
 				}
 			}
-			r.Sample(map[string]interface{}{"writer": wc.Name, "ops": wOpsStrings(ops)[:min(4, len(ops))], "output_len": len(good), "fault_positions": len(positions)})
+			sops := wOpsStrings(ops)[:min(4, len(ops))]
+			for i := range sops {
+				sops[i] = sops[i][:min(len(sops[i]), 80)]
+			}
+			r.Sample(map[string]interface{}{"writer": wc.Name, "big_chunks": wc.Big, "ops": sops, "output_len": len(good), "fault_positions": len(positions)})
 		}
 	}
 }
